@@ -335,6 +335,11 @@ def o_integral(m, pt, d):
     return pt.integral(lambda m_, p_: _sq(m_, p_) + 0.5 * u0_of(m_, p_.s, d) * u0_of(m_, p_.s, d))
 
 
+def o_qstate_t(m, pt, d):
+    # Lagrange term written as the final value of a quadrature state declared by the user
+    return pt.quad_state(lambda m_, p_: m_.sin(p_.s["t"]) * _x0(m_, p_) + 0.3 * p_.s["t"] + 0.25 * u0_of(m_, p_.s, d))
+
+
 def o_integral_t(m, pt, d):
     return pt.integral(lambda m_, p_: m_.sin(p_.s["t"]) * _x0(m_, p_) + 0.3 * p_.s["t"])
 
@@ -415,6 +420,9 @@ def make_grid(name):
         dens = {"lin": 1 + tau, "sq": 0.2 + tau * tau}[opts.get("dens", "lin")]
         return DensityGrid(dens, **kw)
     if kind == "dense_edges":
+        for k in ("multiplier", "edge_frac"):
+            if k in opts:
+                kw[k] = opts[k]
         return DenseEdgesGrid(**kw)
     raise KeyError(kind)
 
@@ -490,6 +498,12 @@ class RealPt:
 
     def integral_control(self, fn):
         return self.ocp.integral(fn(CA, self), grid="control")
+
+    def quad_state(self, fn):
+        # the same quantity through a user-declared quadrature state
+        q = self.ocp.state(quad=True)
+        self.ocp.set_der(q, fn(CA, self))
+        return self.ocp.at_tf(q)
 
     def sum(self, fn, include_last=False):
         return self.ocp.sum(fn(CA, self), include_last=include_last)
